@@ -192,7 +192,10 @@ def prepare_fixed_decimal(data, schema):
 
     tmp = BytesIO()
 
-    if sign:
+    # A negative zero is stored as zero
+    if sign and unscaled_datum:
+        if unscaled_datum > 1 << (size_in_bits - 1):
+            raise ValueError(f"{data} does not fit into {size} bytes")
         unscaled_datum = (1 << bits_req) - unscaled_datum
         unscaled_datum = mask | unscaled_datum
         for index in range(size - 1, -1, -1):
